@@ -14,7 +14,7 @@ done
 python3-vt - <<'PY'
 import json, jsonschema, glob
 sch = json.load(open('/root/.vp/EVIDENCE.schema.json'))
-for f in sorted(glob.glob('/verif/evidence/*.json')):
+for f in sorted(glob.glob('/verif/evidence/*.json') + glob.glob('/verif/evidence/by-tier/*.json')):
     try:
         jsonschema.validate(json.load(open(f)), sch)
     except Exception as e:
